@@ -68,6 +68,15 @@ CHECKS["C06"] = dict(
          "stated.",
     design="4/C06", technique=TECH_A + "; shadow-valued tracing of the real float code into z3 QF_FP terms")
 
+CHECKS["C07"] = dict(
+    text="The three-tier border hierarchy decided on the real PageFeatureProcessor with a real RTFBody carried concretely "
+         "through symbolic control flow: for every page position, header presence, footnote/source kind and placement and "
+         "user border setting, each edge of each cell of the page and the component override are what the statement "
+         "prescribes; plus the header top border, the footnote/source override and the single-cell update (no aliasing).",
+    note="Trusted: z3/CrossHair, FakeFrame for the page frame, vf.minipl for the one-cell footnote frame. Outside: "
+         "multi-section clauses, per-column user vectors overriding border_first, larger pages.",
+    design="4/C07", technique=TECH_A)
+
 NOT_APPLICABLE = {
     "C18": "file-system crash-point property: effects of pathlib/tempfile/shutil and an external converter are opaque to "
            "(and blocked under) symbolic execution; a model of the file system would verify the model, not the effects",
